@@ -80,6 +80,7 @@ CFG = {
         "Swat4.C17.list_body_full",
         "Swat4.C17.list_elements",
         "Swat4.C17.bindBool_table",
+        "Swat4.C17.bindBool_iff",
         "Swat4.C17.knownOf_spec",
         "Swat4.C17.knownOf_go",
         "Swat4.C17.facts_ok",
